@@ -1602,4 +1602,65 @@ theorem lppB_fn_iff (d : Doc) (hwf : d.WF = true) (p : FnPath) (hs : ∀ e ∈ p
       obtain ⟨m, hl, hr⟩ := (fwd_cons_iff d hwf sep s r k n).mp hf
       exact ⟨m, hr, m, rfl, k, hk, hl⟩
 
+
+/-! ## explicit axis spellings -/
+
+
+theorem compileStepW_eq (s : Step) (fd pend : Bool) : compileStepW s fd pend = compileStep s fd := by
+  cases fd <;> cases pend <;> cases he : s.explicit <;> cases ha : s.attrAxis <;>
+    simp [compileStepW, compileStep, branchOf, branchEmit, he, ha]
+
+theorem compileStepsW_eq (steps : List (Sep × Step)) (pend : Bool) : compileStepsW steps pend = compileSteps steps := by
+  induction steps generalizing pend with
+  | nil => rfl
+  | cons x rest ih =>
+    obtain ⟨sep, s⟩ := x
+    cases rest with
+    | nil => simp [compileStepsW, compileSteps, compileStepW_eq]
+    | cons y r =>
+      obtain ⟨sep', s'⟩ := y
+      simp only [compileStepsW, compileSteps, compileStepW_eq, ih]
+
+theorem compilePathW_eq (p : Path) : compilePathW p = compilePath p := by
+  simp only [compilePathW, compilePath, compileStepsW_eq]
+
+theorem compileFnW_eq (p : FnPath) : compileFnW p = compileFn p := by
+  simp only [compileFnW, compileFn, compileStepsW_eq]
+
+theorem compileStep_abbrev (s : Step) (fd : Bool) : compileStep s.abbrev fd = compileStep s fd := rfl
+
+theorem compileSteps_abbrev (steps : List (Sep × Step)) :
+    compileSteps (steps.map fun x => (x.1, x.2.abbrev)) = compileSteps steps := by
+  induction steps with
+  | nil => rfl
+  | cons x rest ih =>
+    obtain ⟨sep, s⟩ := x
+    cases rest with
+    | nil => rfl
+    | cons y r =>
+      obtain ⟨sep', s'⟩ := y
+      simp only [List.map_cons, compileSteps] at ih ⊢
+      rw [ih]; rfl
+
+theorem compilePath_abbrev (p : Path) : compilePath p.abbrev = compilePath p := by
+  obtain ⟨pabs, steps⟩ := p
+  simp only [compilePath, Path.abbrev, compileSteps_abbrev]
+  cases steps with
+  | nil => rfl
+  | cons x r => obtain ⟨sep, s⟩ := x; cases sep <;> rfl
+
+theorem fwd_abbrev (d : Doc) (steps : List (Sep × Step)) (c n : Nat) :
+    fwd d (steps.map fun x => (x.1, x.2.abbrev)) c n = fwd d steps c n := by
+  induction steps generalizing c with
+  | nil => rfl
+  | cons x rest ih =>
+    obtain ⟨sep, s⟩ := x
+    have he : ∀ c', evalStep d c' s.abbrev = evalStep d c' s := fun _ => rfl
+    cases sep <;> simp only [List.map_cons, fwd, he, ih]
+
+theorem matchesPath_abbrev (d : Doc) (p : Path) (n : Nat) : matchesPath d p.abbrev n = matchesPath d p n := by
+  obtain ⟨pabs, steps⟩ := p
+  simp only [matchesPath, selects, Path.abbrev, fwd_abbrev]
+  try rfl
+
 end XalanModel.C09
